@@ -228,4 +228,54 @@ def certaintyRow (lower : Bool) (probs : List Rat) (f : Rat) : Nat :=
 def warnLevel (S : List (List Nat)) (lower : Bool) (probs fs : List Rat) : Nat :=
   ((List.range fs.length).map fun j => sAt S (certaintyRow lower probs (fs.getD j 0)) (j + 1)).foldl Nat.max 0
 
+/-! ### FIRM on the extended reals (C12 round 5): forecasts, observations and thresholds that are +∞ or −∞
+
+A forecast "above every category", an observation off the scale, a station whose top category can never occur (threshold
++∞) are legal float inputs.  The stated expression  w · (1 − α) · scale(d, t − o) · 1[false alarm]  (resp. α, o − t, miss)
+is evaluated in the extended-real arithmetic of `Fl` (comparisons with ±∞ as in IEEE, `0 · ∞ = nan`, `∞ − ∞ = nan`):
+
+* without discounting (scale = 1) it is defined for every non-NaN forecast / observation / threshold: the penalty or 0;
+* with discounting the PRODUCT with the 0/1 indicator is undefined (`nan`) where the one-sided distance is infinite on the
+  side that is not penalised (e.g. obs = +∞ makes t − o = −∞ although no false alarm is possible).  `product := false`
+  gives the DECISION form (`if false alarm then (1 − α) · scale else 0`), which differs from the product form exactly there
+  (and agrees with it on all finite inputs: `Props/C12.lean` §6). -/
+
+def falseAlarmX (lower : Bool) (f o t : Fl) : Bool :=
+  if lower then Fl.le o t && Fl.lt t f else Fl.lt o t && Fl.le t f
+def missX (lower : Bool) (f o t : Fl) : Bool :=
+  if lower then Fl.le f t && Fl.lt t o else Fl.lt f t && Fl.le t o
+
+/-- min(signed distance, discount distance) in `Fl` -/
+def scaleX (d : Disc) (x : Fl) : Fl :=
+  match d with
+  | .off => Fl.fin 1
+  | .dist d => Fl.min x (Fl.fin d)
+  | .inf => x
+
+def anyNan3 (f o t : Fl) : Bool := f.isNan || o.isNan || t.isNan
+
+def overX (product lower : Bool) (d : Disc) (α : Rat) (f o t : Fl) : Fl :=
+  if anyNan3 f o t then Fl.nan
+  else if product then Fl.mul (Fl.mul (Fl.fin (1 - α)) (scaleX d (Fl.sub t o))) (Fl.ofBool (falseAlarmX lower f o t))
+  else if falseAlarmX lower f o t then Fl.mul (Fl.fin (1 - α)) (scaleX d (Fl.sub t o)) else Fl.fin 0
+
+def underX (product lower : Bool) (d : Disc) (α : Rat) (f o t : Fl) : Fl :=
+  if anyNan3 f o t then Fl.nan
+  else if product then Fl.mul (Fl.mul (Fl.fin α) (scaleX d (Fl.sub o t))) (Fl.ofBool (missX lower f o t))
+  else if missX lower f o t then Fl.mul (Fl.fin α) (scaleX d (Fl.sub o t)) else Fl.fin 0
+
+def singleX (product lower : Bool) (d : Disc) (α : Rat) (f o t : Fl) : Fl :=
+  Fl.add (overX product lower d α f o t) (underX product lower d α f o t)
+
+/-- Σ_j w_j · x_j in `Fl` -/
+def wsumX (comp : Fl → Fl) (tw : List (Fl × Fl)) : Fl :=
+  tw.foldl (fun acc p => Fl.add acc (Fl.mul p.2 (comp p.1))) (Fl.fin 0)
+
+/-- (firm, over, under) at one case for ANY `Fl` forecast / observation / thresholds / weights -/
+def firmCaseX (product lower : Bool) (dfl : Fl) (α : Rat) (f o : Fl) (tw : List (Fl × Fl)) : Fl × Fl × Fl :=
+  match Disc.ofFl dfl with
+  | some d => (wsumX (singleX product lower d α f o) tw, wsumX (overX product lower d α f o) tw,
+               wsumX (underX product lower d α f o) tw)
+  | none => (Fl.nan, Fl.nan, Fl.nan)
+
 end SV.Spec.Firm
